@@ -125,18 +125,18 @@ Proof.
 Qed.
 
 Lemma c28_edge_refuted :
-  ex_spec_accepts "Float" max_safe_int /\ ex_spec_accepts "Float" (- max_safe_int) /\ ex_spec_accepts "ID" two63.
+  ex_spec_accepts "Float" j_max_safe_int /\ ex_spec_accepts "Float" (- j_max_safe_int) /\ ex_spec_accepts "ID" j_two63.
 Proof.
   unfold ex_spec_accepts, C28_wf. split; [|split].
   - split; [repeat split; vm_compute; reflexivity|]. split; [vm_compute; reflexivity|]. split; [|vm_compute; reflexivity].
     eapply ex_spec_vars; [vm_compute; reflexivity|]. right; left. split; [reflexivity|]. right.
-    exists max_safe_int. split; [reflexivity|]. vm_compute. discriminate.
+    exists j_max_safe_int. split; [reflexivity|]. vm_compute. discriminate.
   - split; [repeat split; vm_compute; reflexivity|]. split; [vm_compute; reflexivity|]. split; [|vm_compute; reflexivity].
     eapply ex_spec_vars; [vm_compute; reflexivity|]. right; left. split; [reflexivity|]. right.
-    exists (- max_safe_int)%Z. split; [reflexivity|]. vm_compute. discriminate.
+    exists (- j_max_safe_int)%Z. split; [reflexivity|]. vm_compute. discriminate.
   - split; [repeat split; vm_compute; reflexivity|]. split; [vm_compute; reflexivity|]. split; [|vm_compute; reflexivity].
     eapply ex_spec_vars; [vm_compute; reflexivity|]. right; right; right; right; left. split; [reflexivity|].
-    right. now exists two63.
+    right. now exists j_two63.
 Qed.
 
 (* query($a: [Int] = [1], $i: I, $f: Float!) with {"i": {"y": 5}, "f": 7} *)
